@@ -599,3 +599,11 @@ R.mutant("benign-r5-detection-in-helper-method", COMP,
                sub("    def render_bind_cast(self, type_, dbapi_type, sqltext):\n        raise NotImplementedError()\n",
                    "    def _note_upsert_parameter(self, bindparam, is_upsert_set):\n" + _DETECT.replace("        # Detect", "        # detect") +
                    "    def render_bind_cast(self, type_, dbapi_type, sqltext):\n        raise NotImplementedError()\n")), None)
+R.mutant("benign-r5-detection-after-bind-expression-with-forwarded-flag", COMP,
+         chain(sub(_DETECT + "        if not skip_bind_expression:\n", "        if not skip_bind_expression:\n"),
+               sub("                    render_postcompile=render_postcompile,\n                    **kwargs,\n                )\n                if bindparam.expanding:\n",
+                   "                    render_postcompile=render_postcompile,\n                    is_upsert_set=is_upsert_set,\n                    **kwargs,\n                )\n                if bindparam.expanding:\n"),
+               sub("        if not literal_binds:\n            literal_execute = (\n", _DETECT + "        if not literal_binds:\n            literal_execute = (\n")), None)
+R.mutant("benign-r5-condition-through-a-local", COMP,
+         sub("        if (\n            is_upsert_set\n            and bindparam.value is None\n            and bindparam.callable is None\n            and self._insertmanyvalues is not None\n        ):\n",
+             "        takes_row_value = bindparam.value is None and bindparam.callable is None\n        if (\n            is_upsert_set\n            and self._insertmanyvalues is not None\n            and takes_row_value\n        ):\n"), None)
